@@ -69,3 +69,12 @@ package py
 //@   pure
 //@ func (Float).M__pow__(a, other, modulus) (r, err)
 //@   trusted
+
+// ---- py/module.go: close callbacks (C09): ghost count of callback rounds per module store ----
+
+//@ ghost cbruns int
+
+//@ func (*ModuleStore).OnContextClosed(store)
+//@   trusted
+//@   modifies cbruns[store]
+//@   ensures ran: cbruns[store] == old(cbruns[store]) + 1
